@@ -148,7 +148,13 @@ func (pc *PageCache) written(name string, off int64, data []byte) {
 }
 
 // Invalidator adapts the page cache to litefs.Invalidator.
-type Invalidator struct{ PC *PageCache }
+type Invalidator struct {
+	PC *PageCache
+	// M, when set, lets an entry invalidation also drop the node object the root
+	// directory caches: the kernel drops the dentry and, with no open file
+	// referencing the inode, sends FORGET, which is what removes the cached node.
+	M *Mount
+}
 
 var _ litefs.Invalidator = (*Invalidator)(nil)
 
@@ -159,7 +165,13 @@ func (iv *Invalidator) InvalidateDBRange(db *litefs.DB, offset, size int64) erro
 }
 func (iv *Invalidator) InvalidateSHM(db *litefs.DB) error { iv.PC.dropAll(db.Name() + "-shm"); return nil }
 func (iv *Invalidator) InvalidatePos(db *litefs.DB) error { iv.PC.dropAll(db.Name() + "-pos"); return nil }
-func (iv *Invalidator) InvalidateEntry(name string) error { iv.PC.dropAll(name); return nil }
+func (iv *Invalidator) InvalidateEntry(name string) error {
+	iv.PC.dropAll(name)
+	if iv.M != nil {
+		iv.M.Root.ForgetNodeByName(name)
+	}
+	return nil
+}
 func (iv *Invalidator) InvalidateLag() error               { return nil }
 
 // Mount drives the handler methods of litefs/fuse the way the kernel would.
